@@ -20,7 +20,8 @@ fn layout(lang: &Lang, rng: &mut Rng, k: usize) -> Place {
     let can_line = !lang.line.is_empty();
     let can_block = lang.block.is_some();
     let indent = ["", "  ", "\t", "      "][rng.below(4)].to_string();
-    let pre = [" ", "", " see é: ", " 日本 "][rng.below(4)].to_string();
+    // (text before the tag in its comment, incl. `<` that opens no tag: positions must not drift)
+    let pre = [" ", "", " see é: ", " 日本 ", " n < 3 and m <= 9 ", " x << 2 <p> ", " a<b < /c "][rng.below(7)].to_string();
     let form = match k % 4 {
         0 if can_line => Form::Line(rng.below(6)),
         1 if can_block => Form::BlockOne,
@@ -70,7 +71,7 @@ pub fn generate(rng: &mut Rng, idx: usize, _tier: Tier) -> CaseOut {
                     attrs.push(("keep-sorted-pattern".into(), pat.into()));
                 }
                 lines = ls.clone();
-                plan = Some(Plan { rule: Rule::Sorted, asc: true, dir_text: "asc".into(), pat: pat.into(), numeric: false, fmt_text: None, lines: ls, sev: None });
+                plan = Some(Plan { rule: Rule::Sorted, asc: true, dir_text: "asc".into(), pat: pat.into(), numeric: false, fmt_text: None, lines: ls, sev: None, neutral: false });
             }
             1 => {
                 let (pat, ls): (&str, Vec<String>) = if multibyte_keys {
@@ -80,7 +81,7 @@ pub fn generate(rng: &mut Rng, idx: usize, _tier: Tier) -> CaseOut {
                 };
                 attrs.push(("keep-unique".into(), pat.into()));
                 lines = ls.clone();
-                plan = Some(Plan { rule: Rule::Unique, asc: true, dir_text: String::new(), pat: pat.into(), numeric: false, fmt_text: None, lines: ls, sev: None });
+                plan = Some(Plan { rule: Rule::Unique, asc: true, dir_text: String::new(), pat: pat.into(), numeric: false, fmt_text: None, lines: ls, sev: None, neutral: false });
             }
             2 => {
                 let pat = "^[0-9]+$";
@@ -99,7 +100,7 @@ pub fn generate(rng: &mut Rng, idx: usize, _tier: Tier) -> CaseOut {
                 if on_tag_line {
                     all.insert(0, start.trailing.clone());
                 }
-                plan = Some(Plan { rule: Rule::Pattern, asc: true, dir_text: String::new(), pat: pat.into(), numeric: false, fmt_text: None, lines: all, sev: None });
+                plan = Some(Plan { rule: Rule::Pattern, asc: true, dir_text: String::new(), pat: pat.into(), numeric: false, fmt_text: None, lines: all, sev: None, neutral: false });
             }
             3 => {
                 attrs.push(("line-count".into(), "<0".into()));
